@@ -160,7 +160,7 @@ func l1ClassifyWsHdrCase(c l1WsHdrCase) (bool, []string) {
 func TestL1WsHeader(t *testing.T) {
 	pbt.Run(t, pbt.Spec[l1WsHdrCase]{
 		ID: "C11", Name: "l1-ws-header", Gen: l1GenWsHdrCase, Run: l1RunWsHdrCase, Classify: l1ClassifyWsHdrCase,
-		Quick: 10000, Thorough: 60000,
+		Quick: 10000, Thorough: 30000,
 	})
 }
 
@@ -319,6 +319,6 @@ func l1ClassifyWsSessCase(c l1WsSessCase) (bool, []string) {
 func TestL1WsSession(t *testing.T) {
 	pbt.Run(t, pbt.Spec[l1WsSessCase]{
 		ID: "C11", Name: "l1-ws-session", Gen: l1GenWsSessCase, Run: l1RunWsSessCase, Classify: l1ClassifyWsSessCase,
-		Quick: 6000, Thorough: 40000,
+		Quick: 6000, Thorough: 12000,
 	})
 }
